@@ -17,7 +17,10 @@ History ops (JSON-able):
                                                              reads now+dt inside that async_add_listener call; code = 10*depth + phase: phase 1 =
                                                              async_update_records, 2 = ..._complete; depth 0 = the datagram's own rounds, depth d+1 =
                                                              the callbacks run by an `add with a question` of a depth-d callback: its purge's two
-                                                             rounds and the replay to the new listener)
+                                                             rounds and the replay to the new listener),
+                                                             decoded by the harness and handed to RecordManager.async_updates_from_response
+    ["W", now, [rec...], [[code, lid, kind, target, ...]...]]   the same datagram as bytes through the real AsyncListener.datagram_received
+                                                             (duplicate-packet guard, decode, routing to the record manager)
     ["X", now]                                               periodic purge
     ["LA", id] / ["LR", id]                                  add / remove a recording listener
     ["BA", id, now, [type...]] / ["BR", id]                  create / cancel a browser
@@ -35,9 +38,12 @@ import re
 from . import common as C
 
 import zeroconf._cache as _zc_cache  # noqa: E402
+import zeroconf._core as _zc_core  # noqa: E402
 import zeroconf._dns as _zc_dns  # noqa: E402
 import zeroconf._engine as _zc_engine  # noqa: E402
 import zeroconf._handlers.record_manager as _zc_rm  # noqa: E402
+import zeroconf._listener as _zc_listener  # noqa: E402
+import zeroconf._protocol.incoming as _zc_incoming  # noqa: E402
 import zeroconf._services.browser as _zc_browser  # noqa: E402
 from zeroconf import const as K  # noqa: E402
 from zeroconf._cache import DNSCache  # noqa: E402
@@ -52,13 +58,16 @@ T0 = 1_000_000  # first instant of every history (0 is falsy inside the library)
 
 TRUSTED_COMMON = [
     "instant 0 is falsy in DNSRecord.__init__ / DNSIncoming (`created or current_time_millis()`): the harness starts at 1 000 000 ms; the theorems quantify over all instants",
-    "harness/cachecommon.py: the stub `zc` (cache, record_manager, question_history, async_notify_all, dummy loop) stands in for "
-    "Zeroconf; only DNSCache, RecordManager, _ServiceBrowserBase (callback side), AsyncEngine._async_cache_cleanup, DNSOutgoing and "
-    "DNSIncoming are real code",
-    "the injected clock: `current_time_millis` is replaced in zeroconf._cache/_dns/_engine/_handlers.record_manager/_services.browser "
-    "by a function returning the op's integer `now`; sub-millisecond float behaviour is not exercised",
+    "harness/cachecommon.py: in the op-sequence streams a stub `zc` (cache, record_manager, question_history, async_notify_all, dummy loop) "
+    "stands in for Zeroconf; DNSCache, RecordManager, _ServiceBrowserBase (callback side), Zeroconf.async_add_listener / "
+    "async_remove_listener (run unbound on the stub), AsyncListener (W ops), AsyncEngine._async_cache_cleanup, DNSOutgoing and "
+    "DNSIncoming are real code; the `live` stream of C04 runs a whole real Zeroconf under the virtual-time simulator",
+    "the injected clock: `current_time_millis` is replaced in zeroconf._cache/_dns/_engine/_listener/_core/_protocol.incoming/"
+    "_handlers.record_manager/_services.browser by a function returning the op's integer `now`; after the instant a datagram's arrival "
+    "time has been read (and during purges / flagged browser creations) it advances 1 ms per reading; sub-millisecond float behaviour "
+    "is not exercised (a non-integral lifetime in the cache is rendered exactly and so differs from the model and the reference)",
     "harness/cachecommon.py `Ref`: my flat reading of RFC 6762 section 10 and of the C06 sentence (the oracle of stage O)",
-    "str.lower() is ASCII lowering in the driver; the vocabularies are ASCII only",
+    "str.lower() is ASCII lowering in the driver; the vocabularies are ASCII plus one non-ASCII letter that str.lower() does not change (ß)",
 ]
 
 # ------------------------------------------------------------------------------------------
@@ -66,7 +75,7 @@ TRUSTED_COMMON = [
 
 _CLOCK = [None]
 _REAL_NOW = _zc_cache.current_time_millis
-_CLOCK_MODULES = (_zc_cache, _zc_dns, _zc_engine, _zc_rm, _zc_browser)
+_CLOCK_MODULES = (_zc_cache, _zc_dns, _zc_engine, _zc_rm, _zc_browser, _zc_listener, _zc_incoming, _zc_core)
 
 
 _TICKING = [None]   # during a purge op: number of clock readings so far
@@ -144,6 +153,25 @@ def _unhs(h):
     return "" if h == "-" else bytes.fromhex(h).decode("utf-8", "surrogatepass")
 
 
+def RL(r):
+    """`common.rec_line`, except that a lifetime that is not a whole number (of seconds / milliseconds) is rendered exactly instead
+    of being truncated by `int()`: every instant and TTL the harness feeds is integral, so a fractional `created` / `ttl` in the
+    cache is the code's own arithmetic and must not be hidden"""
+    s = C.rec_line(r)
+    if r.created != int(r.created) or r.ttl != int(r.ttl):
+        f = s.split(" ")
+        f[5], f[6] = repr(float(r.ttl)), repr(float(r.created))
+        s = " ".join(f)
+    return s
+
+
+def _num(x):
+    try:
+        return int(x)
+    except ValueError:
+        return float(x)
+
+
 _PARSE_CACHE = {}
 
 
@@ -153,7 +181,7 @@ def parse_line(line):
     if v is not None:
         return v
     f = line.split(" ")
-    kind, name, type_, cls, flush, ttl, created = f[0], _unhs(f[1]), int(f[2]), int(f[3]), int(f[4]), int(f[5]), int(f[6])
+    kind, name, type_, cls, flush, ttl, created = f[0], _unhs(f[1]), int(f[2]), int(f[3]), int(f[4]), _num(f[5]), _num(f[6])
     rest = f[7:]
     if kind == "p":
         rd = [_unhs(rest[0])]
@@ -219,6 +247,16 @@ class _Loop:
     """placeholder for zc.loop (only asserted to be non-None by _ServiceBrowserBase)"""
 
 
+class _NoQueries:
+    """`zc.registry` / `zc.query_handler` of the stub: the histories contain responses only; a listener that routed one of them to the
+    query side would raise here (an observation, hence a verdict)"""
+
+    has_entries = False
+
+    def __getattr__(self, name):
+        raise AssertionError("the query side (%s) was reached by a response datagram" % name)
+
+
 class _Zc:
     def __init__(self):
         self.cache = DNSCache()
@@ -228,15 +266,35 @@ class _Zc:
         self.started = True
         self.notified = 0
         self.record_manager = _zc_rm.RecordManager(self)
+        self.registry = _NoQueries()
+        self.query_handler = _NoQueries()
 
     def async_notify_all(self):
         self.notified += 1
 
+    # the real `Zeroconf.async_add_listener` / `async_remove_listener` bodies (the path every browser and lookup takes), run unbound
+    # on the stub -- as `_async_cache_cleanup` is
     def async_add_listener(self, listener, question):
-        self.record_manager.async_add_listener(listener, question)
+        _zc_core.Zeroconf.async_add_listener(self, listener, question)
 
     def async_remove_listener(self, listener):
-        self.record_manager.async_remove_listener(listener)
+        _zc_core.Zeroconf.async_remove_listener(self, listener)
+
+
+class _RmProxy:
+    """sits between the real AsyncListener and the real RecordManager: notes that (and with which message) the listener handed a
+    datagram on, and lets the clock start ticking only then"""
+
+    def __init__(self, world):
+        self.w = world
+
+    def async_updates_from_response(self, msg):
+        w = self.w
+        w.handed.append((int(msg.now) if msg.now == int(msg.now) else msg.now, [RL(r) for r in msg.answers()]))
+        return w.rm.async_updates_from_response(msg)
+
+    def __getattr__(self, name):
+        return getattr(self.w.rm, name)
 
 
 class _EngineStub:
@@ -262,7 +320,7 @@ class _Recording(RecordUpdateListener):
 
     def async_update_records(self, zc, now, records):
         w = self.w
-        pairs = [(C.rec_line(u.new), None if u.old is None else C.rec_line(u.old)) for u in records]
+        pairs = [(RL(u.new), None if u.old is None else RL(u.old)) for u in records]
         for u in records:
             n, o = u[0], u[1]        # the legacy `new, old = update` protocol (RecordUpdate.__getitem__)
             if n is not u.new or o is not u.old:
@@ -295,8 +353,9 @@ class _Recording(RecordUpdateListener):
                     entry = [ph, lid, 2, target, w.outer, reading]
                     w.executed.append(entry)
                     w.log.append(("a", self.lid, reading, entry, None, w.depth))
-                    saved = _CLOCK[0]
+                    saved, ticking = _CLOCK[0], _TICKING[0]
                     _CLOCK[0] = float(reading)
+                    _TICKING[0] = None      # the scripted reading is the one reading of that call
                     w.depth += 1
                     try:
                         w.rm.async_add_listener(t, DNSQuestion(r[5], r[6], r[7]))
@@ -306,7 +365,7 @@ class _Recording(RecordUpdateListener):
                         raise
                     finally:
                         w.depth -= 1
-                        _CLOCK[0] = saved
+                        _CLOCK[0], _TICKING[0] = saved, ticking
                 elif kind:
                     w.rm.async_add_listener(t, None)
                     entry = [ph, lid, 1, target, w.outer, None]
@@ -338,7 +397,7 @@ class _Legacy(RecordUpdateListener):
 
     def update_record(self, zc, now, record):
         if self.w.depth == 0:       # nested purge rounds (an `add with a question` from a callback) reach the shim too: not compared
-            self.w.legacy.append(C.rec_line(record))
+            self.w.legacy.append(RL(record))
 
 
 class _SvcListener(ServiceListener):
@@ -492,6 +551,10 @@ class World:
         self.rm = self.zc.record_manager
         self.cache = self.zc.cache
         self.engine = _EngineStub(self.zc)
+        # the real listener object of one socket, in front of the real record manager (W ops)
+        self.alistener = _zc_listener.AsyncListener(self.zc)
+        self.alistener._record_manager = _RmProxy(self)
+        self.handed = []
         self.spy = _Recording(self, None)
         self.rm.async_add_listener(self.spy, None)
         self.legacy = []
@@ -546,7 +609,10 @@ class World:
         for k, pl in enumerate(self.plans):
             if pl[0] == bid and pl[1] == change and pl[2].lower() == name.lower():
                 del self.plans[k]
-                self.log.append(("b", bid, None, [bid, pl[3]], None, self.depth))
+                # the one clock reading the creation's async_add_listener is about to make (the clock ticks per reading during D, W and
+                # X ops once the op's first instant has been read)
+                reading = None if _CLOCK[0] is None else int(_CLOCK[0] + (_TICKING[0] or 0))
+                self.log.append(("b", bid, reading, [bid, pl[3]], None, self.depth))
                 keep = self.zc.notified   # the replay to the new browser notifies too; `n` reports async_updates_complete(new) only
                 self.depth += 1
                 try:
@@ -563,11 +629,11 @@ class World:
 
     def snapshot(self):
         c = self.cache
-        return sep(";", ["%s:%s" % (C.hs(k), sep(",", [C.rec_line(r) for r in c.entries_with_name(k)])) for k in c.names()])
+        return sep(";", ["%s:%s" % (C.hs(k), sep(",", [RL(r) for r in c.entries_with_name(k)])) for k in c.names()])
 
     def readers(self):
         c, p = self.cache, self.p
-        rl = C.rec_line
+        rl = RL
         return {
             "N": [C.hs(n) for n in c.names()],
             "E": [[rl(r) for r in c.entries_with_name(n)] for n in p.names],
@@ -580,6 +646,8 @@ class World:
             "AE": [[rl(r) for r in c.async_entries_with_name(n)] for n in p.names],
             "AS": [[rl(r) for r in c.async_entries_with_server(n)] for n in p.names],
             "AA": [[rl(r) for r in c.async_all_by_details(t[0], t[1], t[2])] for t in p.triples],
+            # the by-name-and-alias lookup (filters expired records with the wall clock = the instant of the last op)
+            "CE": [_opt(c.current_entry_with_name_and_alias(r[1], r[6])) for r in p.recs if r[0] == "p"],
         }
 
     def ptr_view(self):
@@ -600,26 +668,46 @@ class World:
         self.log, self.cbs, self.executed, self.failed = [], [], [], []
         self.cbs2 = []
         self.legacy = []
+        self.handed = []
         self.zc.notified = 0
         self.depth, self.outer = 0, 0
         k = op[0]
-        obs = {"k": k, "err": None}
+        obs = {"k": k, "err": None, "handed": None}
         try:
-            if k == "D":
+            if k in ("D", "W"):
                 now = op[1]
                 _CLOCK[0] = float(now)
                 objs = [mk_record(s, now) for s in op[2]]
-                msg = DNSIncoming(packet_of(objs), now=float(now))
-                got = msg.answers()
+                pkt = packet_of(objs)
+                # decoded while the wall clock shows another instant than the arrival time handed to the decoder: a decoder that stamps
+                # records from the clock instead of from `now` is seen (as a lifetime that differs from the arrival time)
+                _TICKING[0] = 7
+                try:
+                    msg = DNSIncoming(pkt, now=float(now))
+                    got = [RL(r) for r in msg.answers()]
+                finally:
+                    _TICKING[0] = None
                 want = [spec_line(s, now) for s in op[2]]
-                if [C.rec_line(r) for r in got] != want:
-                    raise HarnessError("wire path changed the datagram: %r -> %r" % (want, [C.rec_line(r) for r in got]))
+                if [_strip_life(x) for x in got] != [_strip_life(x) for x in want]:
+                    raise HarnessError("wire path changed the datagram: %r -> %r" % (want, got))
                 self.reacts = [tuple(r) for r in op[3]]
                 self.now0 = now
                 try:
-                    self.rm.async_updates_from_response(msg)
+                    if k == "D":
+                        # the arrival time has been read (by the listener, before decoding); the wall clock moves on while the
+                        # datagram is ingested: everything downstream has to work with the message's `now`
+                        _TICKING[0] = 1
+                        self.rm.async_updates_from_response(msg)
+                    else:
+                        # the bytes through the real listener: its first reading of the clock is the arrival time, every later
+                        # reading during the same event is later
+                        _TICKING[0] = 0
+                        self.alistener.datagram_received(pkt, ("10.0.0.9", 5353))
                 finally:
                     self.reacts = []
+                    obs["ticks"] = _TICKING[0]      # the last clock reading of the op was now + ticks - 1 (as for X ops)
+                    _TICKING[0] = None
+                    obs["handed"] = [h[0] for h in self.handed] if k == "W" else None
             elif k == "X":
                 _CLOCK[0] = float(op[1])
                 _TICKING[0] = 0
@@ -677,7 +765,7 @@ class World:
 
 
 def _opt(r):
-    return None if r is None else C.rec_line(r)
+    return None if r is None else RL(r)
 
 
 def run_impl(probes, ops, last_only=False):
@@ -704,15 +792,17 @@ def _recs(l):
 
 def render_readers(R):
     o = lambda x: "~" if x is None else x  # noqa: E731
-    return "N=%s E=%s S=%s G=%s U=%s D=%s A=%s AE=%s AS=%s AA=%s" % (
+    return "N=%s E=%s S=%s G=%s U=%s D=%s A=%s AE=%s AS=%s AA=%s CE=%s" % (
         sep(",", R["N"]), sep(";", [_recs(x) for x in R["E"]]), sep(";", [_recs(x) for x in R["S"]]),
         sep(";", [o(x) for x in R["G"]]), sep(";", [o(x) for x in R["U"]]), sep(";", [o(x) for x in R["D"]]),
         sep(";", [_recs(x) for x in R["A"]]), sep(";", [_recs(x) for x in R["AE"]]), sep(";", [_recs(x) for x in R["AS"]]),
-        sep(";", [_recs(x) for x in R["AA"]]))
+        sep(";", [_recs(x) for x in R["AA"]]), sep(";", [o(x) for x in R["CE"]]))
 
 
 def render_cb(cbs):
-    keyed = sorted(cbs, key=lambda c: (c[0], C.hs(c[3].lower())))
+    # (browser, lower-cased instance, type): total up to what one browser fires for one (type, instance), so the rendering does not
+    # depend on the iteration order of the `types` set even when one instance name is listed under two browsed types
+    keyed = sorted(cbs, key=lambda c: (c[0], C.hs(c[3].lower()), C.hs(c[2])))
     return sep(",", ["%d:%s:%s:%s" % (c[0], c[1], C.hs(c[2]), C.hs(c[3])) for c in keyed])
 
 
@@ -746,20 +836,24 @@ def render_nest(obs):
 
 def render(obs):
     k = obs["k"]
-    if obs["err"] and k == "D" and obs["u"] is not None:
+    if obs["err"] and k in ("D", "W") and obs["u"] is not None:
         pairs = sep(",", ["%s>%s" % (n, "~" if o is None else o) for n, o in obs["u"]])
-        return "D err=%s u=%s c1=%s s1=%s c2=%s s2=%s nest=%s ls=%s %s" % (
-            obs["err"], pairs, _ids(obs["c1"]), obs["s1"] if obs["s1"] is not None else "!",
+        return "%s err=%s u=%s c1=%s s1=%s c2=%s s2=%s nest=%s ls=%s %s" % (
+            k, obs["err"], pairs, _ids(obs["c1"]), obs["s1"] if obs["s1"] is not None else "!",
             _ids(obs["c2"]), obs["s2"] if obs["s2"] is not None else "!", render_nest(obs), _ids(obs["ids"]), render_readers(obs["R"]))
     if obs["err"]:
         return "%s err=%s" % (k, obs["err"])
-    if k == "D":
+    if k == "W" and not obs["handed"]:
+        # the listener did not hand the datagram on (duplicate guard): nothing may have happened
+        quiet = obs["u"] is None and obs["s2"] is None and not obs["cb"] and not obs["n"]
+        return "W dup %s" % (render_readers(obs["R"]) if quiet else "!callbacks-without-ingestion")
+    if k in ("D", "W"):
         if obs["u"] is None and obs["s2"] is None:
-            head = "D u=~ c1=~ s1=~ c2=~ s2=~"
+            head = "%s u=~ c1=~ s1=~ c2=~ s2=~" % k
         else:
             pairs = "!" if obs["u"] is None else sep(",", ["%s>%s" % (n, "~" if o is None else o) for n, o in obs["u"]])
-            head = "D u=%s c1=%s s1=%s c2=%s s2=%s" % (pairs, _ids(obs["c1"]), obs["s1"] if obs["s1"] is not None else "!",
-                                                    _ids(obs["c2"]), obs["s2"] if obs["s2"] is not None else "!")
+            head = "%s u=%s c1=%s s1=%s c2=%s s2=%s" % (k, pairs, _ids(obs["c1"]), obs["s1"] if obs["s1"] is not None else "!",
+                                                     _ids(obs["c2"]), obs["s2"] if obs["s2"] is not None else "!")
         return "%s nest=%s ls=%s n=%d cb=%s %s" % (head, render_nest(obs), _ids(obs["ids"]), 1 if obs["n"] else 0, render_cb(obs["cb"]),
                                                   render_readers(obs["R"]))
     if k == "X":
@@ -794,7 +888,39 @@ def first_diff(impl, model):
     return None
 
 
+_PAYLOAD = {}
+
+
+def payload_of(recs):
+    """the bytes of the datagram a record list denotes (what the duplicate guard compares); memoised"""
+    key = repr(recs)
+    v = _PAYLOAD.get(key)
+    if v is None:
+        v = packet_of([mk_record(s, T0) for s in recs])
+        if len(_PAYLOAD) < 50000:
+            _PAYLOAD[key] = v
+    return v
+
+
+class WireRef:
+    """the property-side reading of the listener's duplicate guard (C16's subject, `_DUPLICATE_PACKET_SUPPRESSION_INTERVAL`): a response
+    datagram is *processed* unless it is byte-identical to the last processed datagram of the socket and arrives less than 1000 ms after
+    it.  In particular identical payloads 1 s or more apart are processed (periodic re-announcements), and a suppressed copy does not
+    restart the interval."""
+
+    def __init__(self):
+        self.data = None
+        self.t = None
+
+    def expects(self, now, recs):
+        return not (self.data is not None and self.data == payload_of(recs) and now - self.t < 1000)
+
+    def processed(self, now, recs):
+        self.data, self.t = payload_of(recs), now
+
+
 def build_line(probes, ops):
+    pids = {}
     t = ["crun", "P", str(len(probes.names))] + [C.hs(n) for n in probes.names]
     t.append(str(len(probes.recs)))
     t += [spec_line(r, 1) for r in probes.recs]
@@ -804,8 +930,12 @@ def build_line(probes, ops):
     t += ["OPS", str(len(ops))]
     for op in ops:
         k = op[0]
-        if k == "D":
-            t += ["D", str(op[1]), str(len(op[2]))] + [spec_line(r, op[1]) for r in op[2]]
+        if k in ("D", "W"):
+            t += [k, str(op[1])]
+            if k == "W":
+                # equal numbers <=> equal bytes
+                t.append(str(pids.setdefault(payload_of(op[2]), len(pids))))
+            t += [str(len(op[2]))] + [spec_line(r, op[1]) for r in op[2]]
             t.append(str(len(op[3])))
             for r in op[3]:
                 t += [str(r[0]), str(r[1]), str(int(r[2])), str(r[3])]
@@ -947,11 +1077,28 @@ class Ref:
 # stage O helpers shared by the three properties
 
 
-def check_readers(ref, probes, R):
-    """every reader of the cache against the flat reference; returns [(sig, what)]"""
+def check_readers(ref, probes, R, now=None):
+    """every reader of the cache against the flat reference; returns [(sig, what)].  `now`: the instant of the last op (what the wall
+    clock shows when `current_entry_with_name_and_alias` filters expired records)"""
     bad = []
     d = ref.d
     want = ref.lines()
+    if now is not None and R.get("CE") is not None:
+        for r, got in zip([x for x in probes.recs if x[0] == "p"], R["CE"]):
+            cands = [i for i, e in d.items() if i[0] == "p" and i[1] == r[1].lower() and i[2] == 12 and e[2][6] == r[6]
+                     and e[0] + 1000 * e[1] > now]
+            if got is None:
+                if cands:
+                    bad.append(("C05:current_entry_with_name_and_alias-records", "current_entry_with_name_and_alias(%s, %s) returns None at %d, reference "
+                                "holds the unexpired %r" % (r[1], r[6], now, [want[i] for i in cands])))
+            else:
+                gi = parse_line(got)[0]
+                if gi not in cands:
+                    bad.append(("C05:current_entry_with_name_and_alias-records", "current_entry_with_name_and_alias(%s, %s) returns %s at %d; the reference "
+                                "has no unexpired pointer record of that name and alias%s" % (r[1], r[6], got, now, " (it is expired)" if gi in d else "")))
+                elif got != want[gi]:
+                    bad.append(("C05:current_entry_with_name_and_alias-lifetime", "current_entry_with_name_and_alias(%s, %s) returns %s, reference has %s"
+                                % (r[1], r[6], got, want[gi])))
 
     def ctx(kind, key):
         return "%s(%s)" % (kind, key)
@@ -967,10 +1114,8 @@ def check_readers(ref, probes, R):
         if sorted(got) != exp:
             sig = "C05:%s-lifetime" % kind if sorted(_strip_life(x) for x in got) == sorted(_strip_life(x) for x in exp) else "C05:%s-records" % kind
             bad.append((sig, "%s returns %r, reference has %r" % (ctx(kind, key), got, exp)))
-            return
-        ep = [d[parse_line(x)[0]][3] for x in got]
-        if ep != sorted(ep):
-            bad.append(("C05:reader-order", "%s lists records inserted by datagrams %r: not in insertion order" % (ctx(kind, key), ep)))
+        # (the order inside a list is not in the property's sentence -- "the same records with the same creation time and TTL" --:
+        # it is compared with the Lean model only, stage C)
 
     for n, got in zip(probes.names, R["E"]):
         cmp_list("entries_with_name", n, got, [i for i in d if i[1] == n.lower()])
@@ -995,9 +1140,7 @@ def check_readers(ref, probes, R):
                 bad.append(("C05:get_by_details-records", "get_by_details%r returns %s, not in the reference" % (tuple(t), got)))
             elif got != want[gi]:
                 bad.append(("C05:get_by_details-lifetime", "get_by_details%r returns %s, reference has %s" % (tuple(t), got, want[gi])))
-            elif d[gi][3] != max(d[i][3] for i in cands):
-                bad.append(("C05:reader-order", "get_by_details%r returns a record of datagram %d although a later one (%d) matches"
-                            % (tuple(t), d[gi][3], max(d[i][3] for i in cands))))
+            # (which of several matches it returns -- the most recently inserted one -- is compared with the model only)
     for which, label in (("G", "get"), ("U", "async_get_unique")):
         for r, got in zip(probes.recs, R[which]):
             i = ident_of(r)
@@ -1091,19 +1234,19 @@ def shrink(ops, still_fails, max_evals=250):
                 changed = True
             i -= 1
     for i in range(len(cur)):
-        if cur[i][0] != "D":
+        if cur[i][0] not in ("D", "W"):
             continue
         j = len(cur[i][2]) - 1
         while j >= 0:
             if len(cur[i][2]) > 1:
                 cand = [list(o) for o in cur]
-                cand[i] = ["D", cur[i][1], cur[i][2][:j] + cur[i][2][j + 1:], cur[i][3]]
+                cand[i] = [cur[i][0], cur[i][1], cur[i][2][:j] + cur[i][2][j + 1:], cur[i][3]]
                 if ok(cand):
                     cur = cand
             j -= 1
         if cur[i][3]:
             cand = [list(o) for o in cur]
-            cand[i] = ["D", cur[i][1], cur[i][2], []]
+            cand[i] = [cur[i][0], cur[i][1], cur[i][2], []]
             if ok(cand):
                 cur = cand
         j = len(cur[i][3]) - 1
@@ -1148,10 +1291,57 @@ VOCAB = [
     ["p", TZ, 12, IN, "D._Zed._tcp.local."],
     ["s", "D._Zed._tcp.local.", 33, IN, 0, 0, 83, "Host.LOCAL."],
     ["a", "Host.LOCAL.", 1, IN, "0a000004"],
+    # a name with a non-ASCII letter that str.lower() leaves alone but str.casefold() rewrites ("ß" -> "ss"): a lookup path that folds
+    # names differently from DNSEntry.key misses it (seeded defect C05-w4-seed3).  ASCII lowering leaves "ß" alone too, so the driver's
+    # `lower` agrees with str.lower on it
+    ["a", "Fußboden.local.", 1, IN, "0a000005"],
+    ["a", "FUßBODEN.LOCAL.", 1, IN, "0a000005"],     # same identity
+    ["a", "fußboden.local.", 1, IN, "0a000006"],     # its sibling (cache-flush victim / flusher)
 ]
 RARE = {14, 15}
 TTLS = [0, 1, 2, 120, 1124, 1125, 4500]
 STEPS = [0, 1, 999, 1000, 1001, 9999, 10000, 10001, 3_600_000, 7_200_000]
+
+
+WIRE_GAPS = [0, 1, 500, 900, 999, 1000, 1001, 1800, 2000, 60000]
+
+
+def wire_window_histories(listeners=(1,)):
+    """systematic histories through the real listener: one payload sent three or four times with gaps around the 1 s duplicate guard
+    (a copy is dropped only when it comes less than 1 s after the last *processed* copy), TTLs so short that the first copy's deadline
+    falls between the copies, purges at the deadline of the first copy and just before / at the deadline of the last processed one; and
+    the same with another payload in between (which ends the guard's memory)"""
+    txt, ptr, srv, adr = VOCAB[8], VOCAB[0], VOCAB[4], VOCAB[10]
+    payloads = [lambda ttl: [inst(txt, ttl, 0)], lambda ttl: [inst(adr, ttl, 1), inst(srv, ttl, 0)], lambda ttl: [inst(ptr, ttl, 0), inst(txt, ttl, 0)]]
+    other = [inst(VOCAB[12], 120, 0)]
+    gapsets = [(g1, g2) for g1 in (500, 900, 999, 1000, 1001) for g2 in (500, 900, 999, 1000, 1001)] + [(900, 900, 900), (400, 400, 400), (60000, 60000)]
+    for mk in payloads:
+        for ttl in (1, 2, 120):
+            for gaps in gapsets:
+                for between in (False, True):
+                    if between and gaps[0] not in (500, 999):
+                        continue
+                    recs = mk(ttl)
+                    t = T0
+                    ev = [(t, ["W", t, recs, []])]
+                    wire = WireRef()
+                    wire.processed(t, recs)
+                    lastp = t
+                    for g in gaps:
+                        if between:
+                            ev.append((t + g // 2, ["W", t + g // 2, other, []]))
+                            wire.processed(t + g // 2, other)
+                        t += g
+                        ev.append((t, ["W", t, recs, []]))
+                        if wire.expects(t, recs):
+                            wire.processed(t, recs)
+                            lastp = t
+                    eff = max(ttl, 1125) if any(r[2] == 12 for r in recs) and ttl < 1125 else ttl
+                    # (a purge whose instant lies before the last copy goes between the copies)
+                    for tx in sorted({T0 + 1000 * ttl, lastp + 1000 * ttl - 1, lastp + 1000 * ttl, lastp + 1000 * eff - 1, lastp + 1000 * eff}):
+                        ev.append((tx, ["X", tx]))
+                    ev.sort(key=lambda e: e[0])
+                    yield [["LA", l] for l in listeners] + [e[1] for e in ev]
 
 
 def inst(tpl, ttl, flush):
@@ -1285,10 +1475,21 @@ def gen_history(rng, depth, opts):
     now = T0
     ops = []
     registered = set()
+    wire = WireRef() if opts.get("wire") else None
+    last_recs = None
     for lid in pool[: opts.get("initial_listeners", 0)]:
         ops.append(["LA", lid])
         registered.add(lid)
     while len(ops) < depth:
+        if wire is not None and last_recs is not None and rng.random() < opts.get("p_same_payload", 0.45):
+            # the same bytes again (a re-announcement / a link-layer duplicate), at a gap around the listener's 1 s guard
+            now += rng.choice(WIRE_GAPS)
+            reacts = gen_reacts(rng, registered, pool, 0.0) if pool and opts.get("reacts") else []
+            ops.append(["W", now, [list(r) for r in last_recs], reacts])
+            if wire.expects(now, last_recs):
+                wire.processed(now, last_recs)
+                ref.datagram(now, last_recs)
+            continue
         now += pick_step(rng, ref, now)
         x = rng.random()
         if x < opts.get("p_purge", 0.18):
@@ -1312,6 +1513,13 @@ def gen_history(rng, depth, opts):
         else:
             recs = gen_datagram(rng, vocab, ref, opts)
             reacts = gen_reacts(rng, registered, pool, opts.get("p_remove_absent", 0.0), opts.get("p_question", 0.0)) if pool and opts.get("reacts") else []
+            if wire is not None:
+                ops.append(["W", now, recs, reacts])
+                last_recs = recs
+                if wire.expects(now, recs):
+                    wire.processed(now, recs)
+                    ref.datagram(now, recs)
+                continue
             ops.append(["D", now, recs, reacts])
             ref.datagram(now, recs)
             # the steering copy of the listener set is approximate (reactions are not tracked); that is fine
@@ -1351,7 +1559,7 @@ def ttl_class(t):
 
 
 def op_time(op):
-    return op[1] if op[0] in ("D", "X") else (op[2] if op[0] == "BA" else None)
+    return op[1] if op[0] in ("D", "W", "X") else (op[2] if op[0] == "BA" else None)
 
 
 class Runner:
@@ -1459,7 +1667,7 @@ class Runner:
 def case_probes(case):
     if case.get("probes"):
         return Probes.from_json(case["probes"])
-    return probes_for([r for op in case["ops"] if op[0] == "D" for r in op[2]],
+    return probes_for([r for op in case["ops"] if op[0] in ("D", "W") for r in op[2]],
                       [t for op in case["ops"] if op[0] == "BA" for t in op[3]] + [t for op in case["ops"] if op[0] == "BP" for t in op[5]])
 
 
